@@ -10,12 +10,12 @@ import numpy as np
 from . import canon as C
 from .simfs import SimFS, Policy
 
-NAMES = ["A", "a", "B", "", "A:1", "A:2", "UNKNOWN", "7", " ", "b", "GR", "Gr", "_ID", "SW%", "P%s"]
-NAMES_PLAIN = ["A", "a", "B", "", "UNKNOWN", "7", " ", "b", "GR", "Gr", "_ID", "SW%", "P%s"]     # steer away from F-C13-1
+NAMES = ["A", "a", "B", "", "A:1", "A:2", "UNKNOWN", "7", " ", "b", "GR", "Gr", "_ID", "SW%", "P%s", "Gr\u00f6\u00dfe", "\u00b5S"]
+NAMES_PLAIN = ["A", "a", "B", "", "UNKNOWN", "7", " ", "b", "GR", "Gr", "_ID", "SW%", "P%s", "Gr\u00f6\u00dfe", "\u00b5S"]     # steer away from F-C13-1
 NAMES_FILE = ["A", "a", "B", "", "UNKNOWN", "X7", "b", "GR", "Gr", "DT", "_ID", "SW%"]
-PROBE_KEYS = NAMES + ["A:3", "B:1", "UNKNOWN:1", "unknown", "zz", "a:1", "gr", "_id", "_ID:1", "_x", "__len__x"]
+PROBE_KEYS = NAMES + ["A:3", "B:1", "UNKNOWN:1", "unknown", "zz", "a:1", "gr", "_id", "_ID:1", "_x", "__len__x", "GR\u00d6SSE", "gr\u00f6\u00dfe", "\u03bcs", "\u039cS"]
 UNITS = ["", "M", "US/F", "K/M3"]
-VALUES = ["", "x y", 1, "15_9", -7, 250]
+VALUES = ["", "x y", 1, "15_9", -7, 250, np.nan]       # np.nan: the one shared float object (identity is lost by pickling)
 DESCRS = ["", "d one", "two three"]
 SUFFIX = re.compile(r"^(.*):(\d+)$")
 
@@ -209,6 +209,25 @@ class SectionMachine(object):
             s.insert(op[1], it)
             M.insert(op[1], {"item": it, "orig": op[2]})
             inserted = op[2]
+        elif kind == "move":
+            # an item object that already lived in the section (and may carry a suffix) is taken out and put back elsewhere
+            if not M:
+                r.count("op-skipped")
+                return
+            i = op[1] % len(M)
+            rec = M[i]
+            got = s.pop(i)
+            del M[i]
+            if got is not rec["item"]:
+                self.fail("C15.int-key", "pop(%d) returned another item" % i)
+            if op[3]:
+                s.append(rec["item"])
+                M.append(rec)
+            else:
+                s.insert(op[2], rec["item"])
+                M.insert(op[2], rec)
+            inserted = rec["orig"]
+            self.deleted_or_replaced = True
         elif kind in ("del_idx", "pop"):
             if not M:
                 r.count("op-skipped")
@@ -525,6 +544,8 @@ def gen_ops(g, n, names, c15=False):
         elif r < 0.78:
             ops.append(["insert", g.randint(-4, 4), g.choice(names)])
             used.append(ops[-1][2])
+        elif r < 0.80:
+            ops.append(["move", g.randrange(8), g.randint(-4, 4), g.random() < 0.5])
         elif r < 0.84:
             ops.append(["del_idx", g.randint(-4, 4)])
         elif r < 0.87:
